@@ -11,6 +11,7 @@
 //   upd <suppr>                        SuppressionList::updateSuppressionState             P - | 0|1
 //   sup <global> <id> <file> <line> <symbols> <hash>     SuppressionList::isSuppressed(em, global)      P vs=<N|C|M per entry> | 0|1
 //   supx <global> <id> <file> <line> <symbols> <hash>    SuppressionList::isSuppressedExplicitly          P vs=… | 0|1
+//   werr <showGlobal> <id> <file> <line> <symbols> <hash>   a worker's CppCheckLogger::reportErr (local call, then the call over all)   P vs=…;vs2=… | 0|1
 //   mark <n> (<file> <line>)*n         markUnmatchedInlineSuppressionsAsChecked(TokenList with one token per location)   P - | -
 //   recv <suppr>                       ProcessExecutor::handleRead on a pipe carrying REPORT_SUPPR(_INLINE) built from the
 //                                      suppression exactly as PipeWriter::suppressionToString does             P g=<globsOk of the parsed line> | -
@@ -105,6 +106,9 @@ static SuppressionList::ErrorMessage mkmsg(const std::vector<std::string>& f, st
 static std::string verdicts(const SuppressionList& l, const SuppressionList::ErrorMessage& em) {
     std::string v;
     for (const S& s : l.getSuppressions()) {
+        // the model's hypothesis FlagFree: the verdict does not read the flags
+        S t = s; t.checked = !s.checked; t.matched = !s.matched;
+        if (t.isSuppressed(em) != s.isSuppressed(em)) { v += 'F'; continue; }
         switch (s.isSuppressed(em)) {
         case S::Result::None: v += 'N'; break;
         case S::Result::Checked: v += 'C'; break;
@@ -145,6 +149,20 @@ int main() {
             const std::string v = verdicts(L, em);
             const bool r = op == "sup" ? L.isSuppressed(em, global) : L.isSuppressedExplicitly(em, global);
             answer("vs=" + v, r ? "1" : "0", L);
+        } else if (op == "werr" && f.size() == 7) {
+            // what CppCheckLogger::reportErr of a worker (mUseGlobalSuppressions == false) does to the list: the call over the local
+            // suppressions, then - for a finding none of them hides (suppressedLater / exit code test) and, since cc259cb, also for a
+            // hidden one - the call over all suppressions.  f[1] = the form of the tree (extracted by the check).
+            const bool showGlobal = f[1] == "1";
+            const SuppressionList::ErrorMessage em = mkmsg(f, 2);
+            const std::string v1 = verdicts(L, em);
+            const bool r = L.isSuppressed(em, false);
+            std::string v2 = "-";
+            if (!r || showGlobal) {
+                v2 = verdicts(L, em);
+                (void)L.isSuppressed(em, true);
+            }
+            answer("vs=" + v1 + ";vs2=" + v2, r ? "1" : "0", L);
         } else if (op == "mark" && f.size() >= 2) {
             const std::size_t n = std::stoul(f[1]);
             if (f.size() != 2 + 2 * n) { std::cout << "bad-op" << std::endl; continue; }
